@@ -12,11 +12,19 @@ pub struct Cfg {
     pub column: usize,
     pub tab: usize,
     pub reorder: bool,
+    /// `blank_lines_upper_bound`: not reachable from the CLI (always the default 2 there), set by
+    /// embedders of the library (engine B)
+    #[serde(default = "default_blank")]
+    pub blank: usize,
+}
+
+fn default_blank() -> usize {
+    2
 }
 
 impl Default for Cfg {
     fn default() -> Self {
-        Cfg { column: 80, tab: 2, reorder: false }
+        Cfg { column: 80, tab: 2, reorder: false, blank: 2 }
     }
 }
 
@@ -26,7 +34,7 @@ impl Cfg {
             max_width: self.column,
             tab_spaces: self.tab,
             reorder_import_items: self.reorder,
-            ..Default::default()
+            blank_lines_upper_bound: self.blank,
         }
     }
 }
